@@ -162,6 +162,12 @@ pub fn import<R: std::io::Read>(
                     pos.line()
                 ))
             })?;
+            if rate.is_zero() {
+                return Err(ImportError::Other(format!(
+                    "rate must not be zero for transaction with conversion: line {}",
+                    pos.line()
+                )));
+            }
             let secondary_commodity = conv.commodity.as_deref().or(secondary_commodity.as_deref())
                 .ok_or_else(||ImportError::Other(format!("either rewrite.conversion.commodity or secondary_commodity field must be set @ line {}", pos.line())))?;
             let (rate_key, computed_transferred) = match conv.rate {
